@@ -5,6 +5,7 @@ from spverif.core.util import attempt, exc_sig, rand_bytes, rand_name, documente
 from spverif.ref import cfdp as R
 from . import _cfdp as C
 
+SCRIBBLE = True
 ID = "C08"
 LEVEL = "exploration"
 SHARDS = {"quick": 1, "thorough": 8}
@@ -283,6 +284,8 @@ def selftest(ctx):
 
 
 def run(ctx):
+    from spverif.san import scribble
+    scribble.install()
     r = ctx.rng
     X = C.lib()
     i = 0
@@ -350,6 +353,7 @@ def run(ctx):
 
 
 def conclude(ctx):
+    ctx.require(ctx.extra.get("hostile_caller_scribbled_pack_results", 0) > 0, "hostile-caller sanitizer scribbled no pack() result")
     ctx.require(len(ctx.tables.get("tlv_type_x_len", {})) == 6 * 256, "TLV type x length table incomplete")
     ctx.require(len(ctx.tables.get("lv_len", {})) == 256, "LV length table incomplete")
     ctx.require(len(ctx.tables.get("type_safety_matrix", {})) == 6 * 5 * 4, "type safety matrix incomplete")
